@@ -21,10 +21,12 @@ pub fn explore(opts: &Opts) -> Explored {
         (vec![2, 2, 4, 4], vec![70, 2, 3, 3], 1, 1),
         (vec![1, 12, 13], vec![2, 1, 3, 3], 1, 1),
         (vec![5, 6, 6], vec![3, 5, 5, 5], 1, 1),
+        (vec![1, 260, 260], vec![1, 1, 2, 2], 1, 1),
+        (vec![2, 3, 150, 150], vec![2, 3, 3, 3], 2, 3),
     ] {
         space.push(ConvCfg { image: img, filters: fil, sr, sc });
     }
-    let variants: Vec<u64> = vec![opts.seed % 3, (opts.seed + 1) % 3, 3, 4];
+    let variants: Vec<u64> = if IS_F32 { vec![opts.seed % 3, (opts.seed + 1) % 3, 3, 4, 5] } else { vec![opts.seed % 3, (opts.seed + 1) % 3, 3, 4, 5, 6] };
     let local = par(opts, space.len(), |i, l| {
         let c = &space[i];
         l.states += 1;
